@@ -216,33 +216,6 @@ Definition spec_load_lines (ls : list bytes) : verdict database :=
 
 Definition spec_load (text : bytes) : verdict database := spec_load_lines (text_lines text []).
 
-(* ---------- known defect class (finding C06-list-remainder) ----------
-   db_parse.rs keeps only what its list grammar consumed of a `classes` / `ua_os` / `[module]` line and
-   discards the rest; its ua_os grammar is `name [= alnum]` instead of `name[=[value]]`.  On a line whose
-   value is a plain comma-separated list of alphanumeric names (or empty) nothing is lost. *)
-Definition plain_list (v : bytes) : bool :=
-  match v with [] => true | _ => forallb (word alnum) (split_on ","%byte v) end.
-Definition lossy_line (raw : bytes) : bool :=
-  let l := trim_ascii raw in
-  if starts_with (bs "classes") l || starts_with (bs "ua_os") l then
-    match cut "="%byte l with
-    | Some (_, rhs) => negb (plain_list (drop_while isblank rhs))
-    | None => false end
-  else match l with
-       | c :: rest => beqb c "["%byte &&
-                      match unsnoc rest with
-                      | Some (inner, e) => beqb e "]"%byte && existsb (fun b => beqb b "]"%byte) inner
-                      | None => false end
-       | [] => false end.
-(* ---------- known defect class (finding C06-unknown-item-skipped) ----------
-   db_parse.rs skips (warn!) a module header it does not know together with every label/sig below it, and
-   any `name = value` line whose name the current module does not have, and returns Ok: the text is loaded
-   partially instead of being rejected. *)
-Definition known_unknown_item (text : bytes) : bool :=
-  existsb unknown_item (annotate None (map (fun raw => classify (trim_ascii raw)) (text_lines text []))).
-
-Definition known_db (text : bytes) : bool := existsb lossy_line (text_lines text []) || known_unknown_item text.
-
 (* ---------- domain of the text-level theorem ---------- *)
 (* after removing ASCII white space, no line begins or ends with a non-ASCII byte (Unicode white space at the
    line edges is what Rust's trim removes and this ASCII specification does not describe) *)
